@@ -267,9 +267,34 @@ class Builder:
                     self.tree_remove(ns, l, path)
                     self.tree_insert(ns, l, path, {"k": "null"})
         self.null_plural_gadget()
+        self.range_boundary_gadget()
         for key, tree in self.project["data"].items():
             rng.shuffle(tree)
         return self.project
+
+    def range_boundary_gadget(self):
+        """A range whose arms hold different variables, referenced with a literal count at every boundary of every arm: which arm
+        a fixed count falls into decides the text and the argument set."""
+        rng = self.rng
+        ns = self.nss[0]
+        ty = pick(rng, ["u8", "i16", "u32", "i64", "f32", "f64"])
+        isf = ty.startswith("f")
+        a, b, c_, d = (1.5, 4.5, 9.0, 10.5) if isf else (1, 5, 9, 10)
+
+        def arm(tag, specs):
+            return {"specs": specs, "segs": [{"s": "text", "v": tag + " "}, {"s": "var", "name": "v_" + tag, "fmt": None}]}
+        node = {"k": "range", "ty": ty, "branches": [
+            arm("a", [{"r": "bounds", "start": a, "end": b, "incl": False}]),
+            arm("b", [{"r": "bounds", "start": b, "end": c_, "incl": True}]),
+            arm("c", [{"r": "exact", "v": d}]),
+            {"specs": None, "fb": "_", "segs": [{"s": "text", "v": "d "}, {"s": "var", "name": "v_d", "fmt": None}]}]}
+        for l in self.locales:
+            self.tree_insert(ns, l, ("rg",), node if l == self.default else self.localise(node, l))
+        step = 0.5 if isf else 1
+        for ci, n in enumerate([a - step, a, b - step, b, c_, c_ + step, d, d + step]):
+            lit = {"a": "float", "v": float(n)} if isf else {"a": "int", "v": int(n)}
+            for l in self.locales:
+                self.tree_insert(ns, l, ("rgr_%d" % ci,), {"k": "tmpl", "segs": [{"s": "text", "v": "ref@%s " % l}, {"s": "fk", "ns": ns, "path": ["rg"], "args": [["count", lit]]}]})
 
     def null_plural_gadget(self):
         """A plural that a non-default locale leaves to its parent / the default (`null`), referenced from that locale with a literal
